@@ -153,7 +153,6 @@ def bi_callable(eng, args, kwargs, fr):
 
 def bi_abs(eng, args, kwargs, fr):
     (v,) = args
-    eng.taint_use("abs() of the symbolic weight", v)
     if is_num(v):
         return abs(v)
     if is_intlike(v):
@@ -386,7 +385,6 @@ def bi_min(eng, args, kwargs, fr):
 
 
 def _minmax(eng, args, ismax):
-    eng.taint_use("max()/min() of the symbolic weight", *[a for a in args if isinstance(a, SV)])
     if len(args) == 1:
         c = eng.concrete_iter(args[0])
         if c is None:
